@@ -61,6 +61,8 @@ func init() {
 		"errors.Is":                       func(ex *Exec, a []Val) Val { return Bool{C: ex.errorsIs(a[0], a[1], 0)} },
 		"errors.As":                       func(ex *Exec, a []Val) Val { return Bool{C: ex.errorsAs(a[0], a[1], 0)} },
 		"errors.Unwrap":                   mErrorsUnwrap,
+		"errors.Join":                     mErrorsJoin,
+		"(*errors.joinError).Error":       mJoinErrorError,
 		"strconv.Atoi":                    mAtoi,
 		"strconv.ParseFloat":              mParseFloat,
 		"strconv.Itoa":                    func(ex *Exec, a []Val) Val { return ex.decStr(a[0].(Int)) },
@@ -905,6 +907,34 @@ func (ex *Exec) errorsAs(err, target Val, depth int) bool {
 		depth++
 	}
 	return false
+}
+
+func mErrorsJoin(ex *Exec, args []Val) Val {
+	sl, _ := args[0].(Slice)
+	var errs []Val
+	for _, e := range sl.elems() {
+		if e != nil {
+			errs = append(errs, e)
+		}
+	}
+	if len(errs) == 0 {
+		return nil
+	}
+	var cell Val = Struct{newSlice(errs)}
+	return Iface{T: ex.namedPtr("errors", "joinError"), V: Ptr{&cell}}
+}
+
+func mJoinErrorError(ex *Exec, args []Val) Val {
+	p := args[0].(Ptr)
+	st := (*p.P).(Struct)
+	out := Str{}
+	for i, e := range st[0].(Slice).elems() {
+		if i > 0 {
+			out = concatStr(out, cstr("\n"))
+		}
+		out = concatStr(out, ex.formatVal(e, 'v', false, 1))
+	}
+	return out
 }
 
 func mErrorsUnwrap(ex *Exec, args []Val) Val {
